@@ -407,7 +407,7 @@ def sys_case(rng, cid, steps=None, nprog=None, big=False, script=None, mode=None
         for _ in range(nsteps):
             script.append(rng.weighted([("nothing", 6), ("edit-src", 3), ("edit-inc", 3), ("touch-inh", 2), ("touch-src", 2),
                                         ("touch-inc", 1), ("simul-restart", 2), ("restart", 1), ("equal-inc", 1),
-                                        ("simul-norestart", 1), ("edit-parent-inc", 2)]))
+                                        ("simul-norestart", 1), ("edit-parent-inc", 2), ("damage", 2)]))
     for act in script:
         t += 1
         if act == "edit-src":
@@ -435,6 +435,16 @@ def sys_case(rng, cid, steps=None, nprog=None, big=False, script=None, mode=None
             L.append("restart " + " ".join(objs))
         elif act == "simul-norestart":
             L.append("mtime /simul_efun.c %d" % t)
+        elif act == "damage":
+            # the saved binary of one program is truncated or gets a flipped bit (its mtime kept)
+            saved = [i for i in range(len(fam.progs)) if fam.progs[i]["save"]]
+            if saved:
+                i = rng.choice(saved)
+                if rng.chance(1, 2):
+                    L.append("corrupt %s trunc %d" % (fam.path(i), rng.below(1000)))
+                else:
+                    L.append("corrupt %s flip %d %d" % (fam.path(i), rng.below(1000) if rng.chance(2, 3) else rng.below(60),
+                                                         rng.choice([1, 2, 4, 8, 16, 32, 64, 128, 255])))
         elif act == "edit-parent-inc":
             # a header that a parent includes and the top does not (if there is one)
             cand = [nm for i in range(1, len(fam.progs)) for nm in fam.progs[i]["inc"] if nm not in fam.progs[0]["inc"]]
@@ -491,6 +501,10 @@ def boundary():
             c = sys_case(E.Rng(seed + 10 * k), "p%d_%d" % (k, seed), nprog=3, script=script)
             c.id = "b-sys-%d-" % seed + "-".join(script)
             B.append(c)
+    for k in range(6):
+        c = sys_case(E.Rng(7000 + k), "d%d" % k, nprog=2, script=["damage", "nothing", "damage"], mode=["reloadp", "reload"][k % 2])
+        c.id = "b-sys-damage-%d" % k
+        B.append(c)
     # pragma positions (top / between functions / end / in an include / toggled), same process and new process
     for k in range(12):
         c = sys_case(E.Rng(6000 + k), "q%d" % k, nprog=2, script=["nothing", "nothing"], mode=["reloadp", "reload"][k % 2])
@@ -514,7 +528,7 @@ def generate(rng, n, tier):
 
 def histogram(cases, impl):
     h = {"unit_cases": 0, "sys_cases": 0, "reloads": 0, "binary_used": 0, "stale": 0, "needs_inherit": 0, "saves": 0,
-         "permuted_reloads": 0, "switch_tables": 0, "programs_dumped": 0, "usort": 0, "upatch": 0, "call_results": 0}
+         "permuted_reloads": 0, "damaged_binaries": 0, "switch_tables": 0, "programs_dumped": 0, "usort": 0, "upatch": 0, "call_results": 0}
     h["fresh_process_reloads"] = sum(1 for c in cases for l in c.lines if l.startswith("reloadp "))
     h["string_case_expectations"] = sum(1 for c in cases for l in c.lines if l.startswith("expect "))
     pos = {}
@@ -556,6 +570,8 @@ def histogram(cases, impl):
                 h["binary_used" if t[2] == "use" else "stale" if t[2] == "stale" else "needs_inherit"] += 1
             elif t[0] == "sv":
                 h["saves"] += 1
+            elif t[0] == "corrupted":
+                h["damaged_binaries"] += 1
             elif t[0] == "D" and t[2] == "hdr":
                 h["programs_dumped"] += 1
             elif t[0] == "D" and t[2] == "sw":
